@@ -29,9 +29,12 @@ type CliCase struct {
 	Args     []string `json:"args"` // flags; the file argument is appended (FileArg)
 	FileArg  string   `json:"file_arg"`
 	Extra    []string `json:"extra_args"`
+	// Definite: "syntax" / "type" - the text is wrong by construction (a complete well-typed program,
+	// decorations, then a line that cannot be right), whatever the parser under test says about it
+	Definite string `json:"definite,omitempty"`
 }
 
-var cliFileKinds = []string{"accepted", "accepted", "type-error", "syntax-error", "empty", "missing", "directory", "truncated", "junk", "long-line", "no-final-newline", "annotated-linear", "annotated-linear"}
+var cliFileKinds = []string{"accepted", "accepted", "broken-by-construction", "broken-by-construction", "type-error", "syntax-error", "empty", "missing", "directory", "truncated", "junk", "long-line", "no-final-newline", "annotated-linear", "annotated-linear"}
 
 func DrawCliCase(ch Chooser) *CliCase {
 	c := &CliCase{FileArg: "p.grits"}
@@ -71,6 +74,57 @@ func DrawCliCase(ch Chooser) *CliCase {
 			rest = gen.MutateBytes(ch.Intn, rest, 2)
 		}
 		c.Text = "prc[first] : 1 = print p; close self\n" + long + "\n" + rest
+	case "broken-by-construction":
+		// a complete, well-typed program; then comments of several shapes, blank lines or one very
+		// long comment line; then a line that is wrong whatever precedes it. The oracle does not ask
+		// the parser whether this text is wrong: it is.
+		var sb strings.Builder
+		sb.WriteString(prog.Text())
+		words := []string{"note", "see below", "todo", "x y z", "a b", ""}
+		for i, n := 0, ch.Intn(4); i < n; i++ {
+			wd := words[ch.Intn(len(words))]
+			switch ch.Intn(7) {
+			case 0:
+				fmt.Fprintf(&sb, "/* %s */\n", wd)
+			case 1:
+				fmt.Fprintf(&sb, "/** %s **/\n", wd)
+			case 2:
+				fmt.Fprintf(&sb, "/*** %s ***/\n", wd)
+			case 3:
+				fmt.Fprintf(&sb, "// %s\n", wd)
+			case 4:
+				sb.WriteString("\n\n")
+			case 5:
+				fmt.Fprintf(&sb, "// %s\n", strings.Repeat("long ", 14000))
+			default:
+				fmt.Fprintf(&sb, "/**/ /* %s */ // %s\n", wd, wd)
+			}
+		}
+		var nullary []string
+		for _, d := range prog.Defs {
+			if len(d.Params) == 0 && d.Prov == "" {
+				nullary = append(nullary, d.Name)
+			}
+		}
+		switch k := ch.Intn(5); {
+		case k == 0:
+			sb.WriteString("prc[zq9] : 1 = ")
+			c.Definite = "syntax"
+		case k == 1:
+			sb.WriteString(")\n")
+			c.Definite = "syntax"
+		case k == 2 && len(nullary) > 0:
+			// an exec of a function that does not exist, followed by a perfectly good one
+			fmt.Fprintf(&sb, "exec nosuchfn9()\nexec %s()\n", nullary[ch.Intn(len(nullary))])
+			c.Definite = "syntax"
+		case k == 2 || k == 3:
+			sb.WriteString("exec nosuchfn9()\n")
+			c.Definite = "syntax"
+		default:
+			sb.WriteString("prc[zq9] : 1 = wait zq8; close self\n")
+			c.Definite = "type"
+		}
+		c.Text = sb.String()
 	case "annotated-linear":
 		// runs with or without the typechecker: linear, forwards carry explicit polarities
 		c.Text = gen.Generate(ch.Intn, gen.Options{Untypeable: true}).Text()
@@ -202,6 +256,17 @@ func libraryVerdicts(c *CliCase) cliFacts {
 	return f
 }
 
+// constructionVerdicts overrides what the library says with what is known by construction.
+func constructionVerdicts(c *CliCase, f cliFacts) cliFacts {
+	switch c.Definite {
+	case "syntax":
+		f.ParseOK, f.TypeOK = false, false
+	case "type":
+		f.TypeOK = false
+	}
+	return f
+}
+
 func hasPanicTrace(o cliOutcome) bool {
 	s := o.Stderr + o.Stdout
 	return strings.Contains(s, "goroutine ") && (strings.Contains(s, "[running]") || strings.Contains(s, "panic:")) || strings.Contains(s, "fatal error:")
@@ -236,7 +301,7 @@ func programOutputLines(o cliOutcome) int {
 }
 
 func ExecCliCase(bin, dir string, c *CliCase) (*Violation, cliOutcome, cliFacts) {
-	f := libraryVerdicts(c)
+	f := constructionVerdicts(c, libraryVerdicts(c))
 	e := expectFor(c)
 	o := runCli(bin, dir, c)
 	mk := func(class, msg string) *Violation {
